@@ -15,7 +15,7 @@ READY = sys.argv[1:] if len(sys.argv) > 1 else None
 
 T = {
  'C01': ('exploration', 'E3', '3.C01',
-  'bounded-exhaustive enumeration of (circuit, model, level) through the real compile() workflow on an in-process real Worker; mapping-aware unitary oracle',
+  'bounded-exhaustive enumeration of (circuit, model, level) through the real compile() workflow on an in-process real Worker; mapping-aware unitary oracle; a few whole compile() runs under every schedule within deviation <= 1 of the real runtime classes (E1 world)',
   'Every circuit up to the stated length over the stated gate alphabet x models x levels is compiled by the shipped workflow and judged by an independent numpy oracle (embed at initial mapping, read at final mapping, HS distance budget proportional to synthesis_epsilon). Exhaustive inside the bound; says nothing about larger circuits.',
   'numpy; one-worker zero-preemption runtime schedule (other schedules are C07); finite gate/parameter alphabet'),
  'C02': ('exploration', 'E3', '3.C02',
@@ -54,8 +54,8 @@ T = {
   'per pass of a catalogue: bounded-exhaustive enumeration of its input domain x constructor options; unitary and postcondition oracle',
   'Each shipped transformation pass is run on all circuits of its small domain and compared by unitary (exact or threshold) and postcondition.',
   'finite scope and parameter grid; loop-back runtime'),
- 'C11': ('exploration', 'E2/E3', '3.C11',
-  'exhaustive enumeration of (partitioned circuit, filters, body behaviour, scripted predicate sequences, nesting) vs. a reference interpreter',
+ 'C11': ('exploration', 'E2/E3+E1', '3.C11',
+  'exhaustive enumeration of (partitioned circuit, filters, body behaviour, scripted predicate sequences, nesting) vs. a reference interpreter; ParallelDo (ordered and pick_first) additionally under every schedule within a deviation bound of the real runtime classes (E1 world)',
   'ForEachBlockPass and the control passes are run on every combination in the bounded space and their invocation trace, output and PassData compared with a reference interpreter.',
   'finite scope; harness-defined logging passes'),
  'C12': ('model_checking', 'E1', '3.C12',
@@ -136,7 +136,7 @@ def main() -> None:
             'add_only': True,
         },
         'engines': [
-            {'name': 'E1', 'path': 'vf/sched.py, vf/world.py', 'serves_properties': ['C07', 'C12', 'C13', 'C14', 'C15'],
+            {'name': 'E1', 'path': 'vf/sched.py, vf/world.py', 'serves_properties': ['C07', 'C12', 'C13', 'C14', 'C15', 'C01', 'C11'],
              'kind_free_text': 'controlled-thread scheduler + simulated transport running the real runtime classes; stateless DFS over choice sequences with preemption/deviation bounds'},
             {'name': 'E2', 'path': 'vf/histbfs.py', 'serves_properties': ['C04', 'C05', 'C16', 'C13', 'C11'],
              'kind_free_text': 'explicit-state BFS over operation histories of real objects with a reference model'},
